@@ -198,3 +198,165 @@ func solveAll(obls []*Obligation, cfg solveCfg) {
 	close(ch)
 	wg.Wait()
 }
+
+// explain re-solves a refuted obligation asking for the truth value of every
+// conjunct / disjunct of its goal and the values of interesting sub-terms.
+func explain(o *Obligation, dir string) string {
+	var parts []*Term
+	seen := map[int]bool{}
+	var split func(t *Term, depth int)
+	split = func(t *Term, depth int) {
+		if seen[t.id] || t.bound {
+			return
+		}
+		seen[t.id] = true
+		if t.sort.K == SBool && t.op != "const" {
+			parts = append(parts, t)
+		}
+		if depth > 6 {
+			return
+		}
+		switch t.op {
+		case "and", "or", "not", "ite", "=":
+			for _, a := range t.args {
+				split(a, depth+1)
+			}
+		}
+	}
+	split(o.Goal, 0)
+	// scalar leaves of the goal
+	var leaves []*Term
+	var walk func(t *Term, d int)
+	lseen := map[int]bool{}
+	walk = func(t *Term, d int) {
+		if lseen[t.id] || t.bound || d > 12 {
+			return
+		}
+		lseen[t.id] = true
+		if (t.op == "var" || t.op == "app") && len(leaves) < 60 {
+			leaves = append(leaves, t)
+		}
+		for _, a := range t.args {
+			walk(a, d+1)
+		}
+	}
+	walk(o.Goal, 0)
+	q := o.query(TS.axioms)
+	q.GetValues = append(append([]*Term{}, parts...), leaves...)
+	txt, gv := q.Render(true)
+	file := filepath.Join(dir, "explain.smt2")
+	os.WriteFile(file, []byte(txt), 0o644)
+	r := runSolver(context.Background(), solvers[0], 20, file)
+	if r.status != "sat" {
+		return "explain: solver says " + r.status
+	}
+	// parse get-value output: pairs "(expr value)"
+	var sb strings.Builder
+	vals := parseValuePairs(r.raw)
+	for e, t := range gv {
+		v, ok := vals[e]
+		if !ok {
+			continue
+		}
+		if t.sort.K == SBool {
+			fmt.Fprintf(&sb, "    %-5s %s\n", v, t.render(5))
+		}
+	}
+	for e, t := range gv {
+		v, ok := vals[e]
+		if !ok {
+			continue
+		}
+		if t.sort.K != SBool {
+			fmt.Fprintf(&sb, "    %s = %s\n", t.render(3), v)
+		}
+	}
+	return sb.String()
+}
+
+// parseValuePairs parses "((e1 v1)\n (e2 v2))" with balanced parentheses.
+func parseValuePairs(raw string) map[string]string {
+	out := map[string]string{}
+	i := strings.Index(raw, "(")
+	if i < 0 {
+		return out
+	}
+	s := raw[i+1:]
+	// iterate top-level pairs
+	for {
+		j := strings.Index(s, "(")
+		if j < 0 {
+			break
+		}
+		s = s[j:]
+		// read one balanced s-expr
+		depth := 0
+		k := 0
+		inBar := false
+		for k = 0; k < len(s); k++ {
+			c := s[k]
+			if c == '|' {
+				inBar = !inBar
+			}
+			if inBar {
+				continue
+			}
+			if c == '(' {
+				depth++
+			} else if c == ')' {
+				depth--
+				if depth == 0 {
+					break
+				}
+			}
+		}
+		if k >= len(s) {
+			break
+		}
+		pair := s[1:k]
+		s = s[k+1:]
+		// split pair into first s-expr and rest
+		e, v := splitFirstSexpr(pair)
+		out[e] = strings.TrimSpace(v)
+	}
+	return out
+}
+
+func splitFirstSexpr(p string) (string, string) {
+	p = strings.TrimSpace(p)
+	if len(p) == 0 {
+		return "", ""
+	}
+	if p[0] != '(' {
+		// atom, possibly |quoted|
+		if p[0] == '|' {
+			j := strings.Index(p[1:], "|")
+			return p[:j+2], p[j+2:]
+		}
+		j := strings.IndexAny(p, " \t\n")
+		if j < 0 {
+			return p, ""
+		}
+		return p[:j], p[j:]
+	}
+	depth := 0
+	inBar := false
+	for k := 0; k < len(p); k++ {
+		c := p[k]
+		if c == '|' {
+			inBar = !inBar
+		}
+		if inBar {
+			continue
+		}
+		if c == '(' {
+			depth++
+		} else if c == ')' {
+			depth--
+			if depth == 0 {
+				return p[:k+1], p[k+1:]
+			}
+		}
+	}
+	return p, ""
+}
